@@ -8,6 +8,7 @@ mod bits;
 mod expr;
 mod ops;
 mod reg;
+mod sampler;
 mod util;
 
 use std::io::{self, BufRead, Write};
@@ -36,6 +37,7 @@ fn main() {
             "ops" => ops::run(&toks),
             "bits" => bits::run(&toks),
             "reg" => reg::run(&toks),
+            "sampler" => sampler::run(&toks),
             other => format!("ERR unknown-engine {}", other),
         });
         let payload = match res {
